@@ -280,6 +280,7 @@ def run_check(ck, root):
         lreqs.append(r); lims.append(lim)
     lans = ck.driver('Session', lreqs) if (lreqs and driver_err is None) else []
     disagreements = []
+    timeouts = []
     nviol = 0
     visible = {}
     for fi, fr in enumerate(forced):
@@ -300,6 +301,8 @@ def run_check(ck, root):
                     if real[j][0] in ('parser_state', 'decimal_config') or real[j][0] not in K.VARS: continue
                     if real[j][1] != pred[i][j]:
                         disagreements.append(('obs', fr['gate_var'], fr['schedule'], i, j, real[j], pred[i][j])); break
+            if fr['outcomes'][i] == ('none',) or fr['solos'][i]['outcome'] == ('none',):
+                timeouts.append((fr['gate_var'], i)); continue          # wall-clock guard hit (overloaded machine): no verdict
             if fr['outcomes'][i] != fr['solos'][i]['outcome']:
                 # attribute to the first variable on which the call observed something else than alone
                 var, seen_code = fr['gate_var'], None
@@ -326,6 +329,7 @@ def run_check(ck, root):
                 ck.violation(key, {'specs': fr['specs'], 'gate_var': fr['gate_var'], 'schedule': fr['schedule'], 'call': i,
                                    'alone': fr['solos'][i]['outcome'], 'concurrent': fr['outcomes'][i]}, what)
     ck.note('forced_schedules_run', len(forced))
+    ck.note('calls_without_verdict_wall_clock_guard', len(timeouts))
     ck.note('forced_runs_with_a_differing_call', nviol)
     ck.note('visible_effects_by_key', visible)
     if forced:
